@@ -543,6 +543,8 @@ def decide(pid, tier, seed, replay=None):
         v = others[0]
         p = write_replay(pid, tier, seed, v["kind"], v, extra={"all": [o["what"][:300] for o in others[:20]]})
         print(f"VIOLATION property={pid} replay={p} no-failing-input-found")
+        for o in others[1:6]:
+            write_replay(pid, tier, seed, o["kind"], o)
 
     # (6) evidence
     evaluations = sum(m.get("evaluations", 0) for m in metas)
